@@ -62,15 +62,24 @@ THOROUGH = QUICK + ["coupling_flow(2 layers)"]
 ROUNDTRIP_OK = {"T(Normal,Affine)", "T(StdNormal,Invert(Affine))", "T(StdNormal,Exp)", "T(Normal,AdditiveCondition) [conditional bijection, unconditional base]"}
 
 
+PRE = []
+
+
 def _setup(name):
     import jax
     jax.config.update("jax_enable_x64", True)
     import jax.numpy as jnp
     import jax.random as jr
     from ..sym import f64, leaves_of, symarr
-    d = f64(_dists()[name]())
+    from flowjax.wrappers import unwrap
+    # unwrapped parameters under their invariant (scale > 0): wrappers are C11/C12's subject
+    d = unwrap(f64(_dists()[name]()))
     leaves, mk, paths = leaves_of(d)
     syms = [symarr(f"p{i}", l.shape) for i, l in enumerate(leaves)]
+    PRE.clear()
+    for sy, pth in zip(syms, paths):
+        if pth.endswith(".scale"):
+            PRE.extend([v > 0 for v in sy.ravel()])
     x = symarr("x", d.shape)
     c = None if d.cond_shape is None else symarr("c", d.cond_shape)
     key = symarr("k", (2,), z3.IntSort())
@@ -88,7 +97,7 @@ def _cmp(name, label, ctx, lhs, rhs, assume_ok_rhs=True):
     if okr is False:
         return "error", None, "specification side is undefined everywhere"
     # phase 1: wherever the specification side is defined, the implementation side is defined and equal
-    assume = [okr] if jx.is_z(okr) else []
+    assume = list(PRE) + ([okr] if jx.is_z(okr) else [])
     st, m, where = eq_goal(ctx, assume, lhs, rhs, f"C03/{name}/{label}")
     if st == "unsat" or "definedness" not in where:
         return st, m, where
@@ -119,7 +128,7 @@ def ob_dist(name):
     def run(fns, args_ex, args_sym):
         ctx = Ctx()
         I = Interp(ctx)
-        set_path([], ctx.facts)
+        set_path(list(PRE), ctx.facts)
         res = []
         for f in fns:
             res.append(I.run(trace(f, *args_ex), *args_sym))
